@@ -122,6 +122,18 @@ class Tr:
         if ('attr', t, n.attr) in env.methods:
           return env.methods[('attr', t, n.attr)](self, c)
       fail(n, 'unknown attribute')
+    if isinstance(n, ast.SetComp):
+      # {f(x) for x in s}: the image of a set of geo indices
+      if len(n.generators) != 1 or n.generators[0].ifs or n.generators[0].is_async or not isinstance(n.generators[0].target, ast.Name):
+        fail(n, 'set comprehension')
+      it, itt = self.expr(n.generators[0].iter, env)
+      if itt != 'S':
+        fail(n, 'set comprehension over ' + itt)
+      env2 = env.copy()
+      x = n.generators[0].target.id
+      env2.names[x] = (x, 'N')
+      c, t = self.expr(n.elt, env2)
+      return ('(map (fun %s => %s) %s)' % (x, c, it), 'S' + t)
     if isinstance(n, ast.List) and not n.elts:
       fail(n, 'empty list literal outside a typed initialisation')
     if isinstance(n, ast.List):
@@ -148,6 +160,8 @@ class Tr:
         if key in env.attrs:
           return env.attrs[key]
         c, t = self.expr(n.value, env)
+        if ('subscript', t) in env.methods:
+          return env.methods[('subscript', t)](self, c, ('%d%%Z' % n.slice.value, 'Z'))
         if t.startswith('P'):
           a, b = t[1:].split(',', 1)
           return ('(%s %s)' % ('fst' if n.slice.value == 0 else 'snd', c),
@@ -202,7 +216,7 @@ class Tr:
     """Python truthiness."""
     if t == 'B':
       return c
-    if t == 'S' or t.startswith('L'):
+    if t == 'S' or t.startswith('L') or t == 'RES':
       return '(negb (is_nil %s))' % c
     if t in ('N',):
       return '(negb (Nat.eqb %s 0))' % c
